@@ -178,6 +178,10 @@ let () =
        | None -> Printf.printf "I %s refuse\n" tag
        | Some p ->
          let musl = parse_sets mus in
+         (* isn.NewFiniteScheme converts the policy with cnf.ConvertToCNF: the scheme's access
+            structure (CanReconstruct, Shareholders, Reconstruct's guard) is the CNF of the maximal
+            unqualified sets *)
+         let p = Cnf musl in
          let holders = sortN (shareholders p) in
          let shares = isn_deal musl (fes_of summands) holders in
          let show_sh (id, kv) = z_to_string id ^ "=" ^
